@@ -690,6 +690,47 @@ func (s *seqState) opAppend() {
 func (s *seqState) opFree() {
 	r := s.r
 	sectors := s.fc.Filesize / sectorSize
+	// hostile requests at the edge of the index range: whatever Validate lets through goes to the constructor
+	if r.IntN(6) == 0 && sectors <= 64 {
+		var idx []uint64
+		hostile := ""
+		switch r.IntN(4) {
+		case 0: // every sector plus the index one past the end
+			for i := uint64(0); i <= sectors; i++ {
+				idx = append(idx, i)
+			}
+			hostile = "all-sectors-plus-one-past-the-end"
+		case 1:
+			idx = []uint64{sectors}
+			hostile = "only-one-past-the-end"
+		case 2:
+			if sectors == 0 {
+				return
+			}
+			idx = []uint64{sectors - 1, sectors - 1}
+			hostile = "duplicate-index"
+		case 3:
+			idx = []uint64{sectors + 1 + r.Uint64N(1<<40)}
+			hostile = "far-past-the-end"
+		}
+		req := rhp4.RPCFreeSectorsRequest{ContractID: s.elem.ID, Prices: s.prices, Indices: idx}
+		req.ChallengeSignature = s.renter.sk.SignHash(req.ChallengeSigHash(s.fc.RevisionNumber + 1))
+		s.b.Count("hostile_free_requests", 1)
+		if err := req.Validate(s.host.pk, s.fc); err != nil {
+			s.b.Count("hostile_free_requests_rejected_by_validate", 1)
+			s.b.SetAdd("validate_rejections", "free/"+hostile+": "+errClass(err))
+			return
+		}
+		k := uint64(len(idx))
+		exp := s.prices.RPCFreeSectorsCost(int(k))
+		s.maybeSteer(exp)
+		root := randHash(r)
+		s.revise("ReviseForFreeSectors", "free/"+hostile+"-accepted-by-Validate", exp, false, map[string]any{"deleted": k, "of": sectors, "indices": idx}, func(fc types.V2FileContract) reviseOut {
+			rev, u, err := rhp4.ReviseForFreeSectors(fc, s.prices, root, int(k))
+			return reviseOut{rev, u, err}
+		})
+		return
+	}
 	if sectors == 0 {
 		return
 	}
